@@ -1414,7 +1414,7 @@ class C01(Prop):
     id = "C01"
     module = "C01"
     theorems = ["C01_plain_count", "C01_decode_local", "C01_decoded_fixed_point", "C01_counts_ok", "C01_accepted_decodes", "C01_layouts_fit", "C01_numbers_fit", "C01_build_decodes"]
-    partial_note = ("partial: for the 55 plain layouts (fields, structs, the three list forms, descriptor strings) it is proved that every body the encoder accepts decodes (never an error) "
+    partial_note = ("partial: for the 55 plain layouts (fields, structs, the three list forms, descriptor strings) it is proved that every body the encoder accepts decodes (never an error), with the same shape (list lengths and order), "
                     "to a value that is a fixed point of encode-then-decode, and that a body decoded from any buffer is such a fixed point (the encoder accepts it, writes as many bits as were read, "
                     "touches no earlier bit, decoding gives the same value); and at the public API: every frame build_message returns for such a message, from any builder history, is accepted by "
                     "MessageFrame::new, carries the message number and get_message returns a typed message of that number (never Corrupt/Empty/MsgNotSupported). "
@@ -1556,10 +1556,12 @@ def _has_dup_or_unrecognised(g, msg):
 class C15(Prop):
     id = "C15"
     module = "C15"
-    theorems = ["C15_layouts_fit", "C15_counts_fit", "C15_size", "C15_truncated", "C15_over_capacity_vec", "C15_over_capacity_str", "C15_no_utf8_all_but_1029"]
-    partial_note = ("partial: size bound (every accepted message fits 8184 bits), count fields wide enough for their capacity, capacity rejection and 'a successful decode never "
-                    "reads past the payload' are proved by induction over the layout; count-on-wire = number of elements and order preservation rest on the bit-packing "
-                    "round trip and are covered by the correspondence only")
+    theorems = ["C15_layouts_fit", "C15_counts_fit", "C15_size", "C15_truncated", "C15_over_capacity_vec", "C15_over_capacity_str", "C15_no_utf8_all_but_1029",
+                "C15_lists_survive", "C15_shape_list"]
+    partial_note = ("proved for the 55 plain layouts: size bound (every accepted message fits 8184 bits), count fields wide enough for their capacity, capacity rejection, 'a successful "
+                    "decode never reads past the payload', and 'whatever the encoder accepts decodes with the same shape' (every list keeps its number of elements and their order at "
+                    "every nesting level, so the count on the wire is the number of elements). Partial: message 1029 (free text) is covered by the correspondence only; MSM and code-bias "
+                    "structures are C10/C16")
     table_obligations = ["counts_fit", "layouts_fit"]
     rule = ("for every list-bearing message type of the regenerated layouts: ROUNDTRIP with n elements for n in {0,1,2,cap-1,cap} and random n (thorough: every n), the count field read back "
             "from the wire; DECODE of frames with every count value above the capacity patched in; DECODE of every truncation of a full-length frame (re-framed, valid CRC); "
